@@ -296,13 +296,18 @@ def showExc : Exc → String
   | .lost => "lost"
   | .closed => "closed"
 
+/-- bodies in digests: hex, or length + rolling hash when long (same rule in the harness) -/
+def showBytes (b : Bytes) : String :=
+  if b.length ≤ 64 then toHex b
+  else s!"L{b.length}h{b.foldl (fun h x => (h * 31 + x) % 4294967296) 0}"
+
 def showFut : Fut → String
   | .unres => "unres"
-  | .res b => s!"res:{toHex b}"
+  | .res b => s!"res:{showBytes b}"
   | .failed e => s!"failed:{showExc e}"
 
 def showOutcome : Outcome → String
-  | .ok b => s!"ok:{toHex b}"
+  | .ok b => s!"ok:{showBytes b}"
   | .noop => "noop"
   | .notOpen => "notopen"
   | .sendErr => "senderr"
@@ -335,6 +340,16 @@ def digest (s : St) : String :=
   s!"lst={showLst s.lst} writer={b01 s.writer} running={b01 s.running} pending={showNats s.pending} " ++
   s!"calls={";".intercalate calls} out={s.outbox.length} idle={b01 (ioIdle s)} blocked={b01 (anyBlocked s)}"
 
+/-- run-length form of a long feed: `hh*count,hh*count,...` -/
+def parseRle (items : List String) : Option Bytes :=
+  (items.mapM fun (it : String) =>
+    match it.splitOn "*" with
+    | [hx, n] => do
+      let bs ← parseHex hx
+      let n ← n.toNat?
+      pure (List.replicate n bs).flatten
+    | _ => none).map List.flatten
+
 def parseLabel (ws : List String) : Option Label :=
   match ws with
   | op :: rest =>
@@ -351,7 +366,10 @@ def parseLabel (ws : List String) : Option Label :=
     | "served" => some .served
     | "clr" => some .clr
     | "cl" => some .cl
-    | "feed" => (parseHex (fieldD fs "b")).map .feed
+    | "feed" =>
+      match field fs "r" with
+      | some _ => (parseRle (listField fs "r")).map .feed
+      | none => (parseHex (fieldD fs "b")).map .feed
     | "eof" => some .eof
     | "reset" => some .reset
     | "provclose" => some .provClose
